@@ -56,3 +56,108 @@ def eval_cases(name, prelude_lines, cases, shard=300, timeout=900, workers=None)
             failing.extend(ids)
             err = err or e
     return failing, err
+
+
+# ---------------------------------------------------------------------------------------------
+# shared logic of C01 / C03 / C05 (valid frames) and C04 (malformed stream)
+
+FRAME_PRELUDE = [
+    "From GCNP Require Import model.MsgRequests model.MsgErrors model.MsgResults model.MsgCodec model.MsgValid model.FrameValid model.FrameCanon.",
+    "Definition mkcomp (raw comp : list Z) : option compressor :=",
+    "  Some {| cmp_compress := fun x => if list_beq Z Z.eqb x raw then Ok comp else Err;",
+    "          cmp_decompress := fun y => if list_beq Z Z.eqb y comp then Ok raw else Err |}.",
+    "Definition dec_eq (c : option compressor) (bs : list Z) (expect : Frame) : bool :=",
+    "  match decode_frame the_msg_codec c bs with",
+    "  | DOk f rest => Frame_beq (canon_frame f) (canon_frame expect) && match rest with [] => true | _ => false end",
+    "  | _ => false end.",
+    "Definition enc_eq (c : option compressor) (f : Frame) (bs : list Z) : bool :=",
+    "  match encode_frame the_msg_codec c f with Ok b => list_beq Z Z.eqb b bs | Err => false end.",
+    "Definition dec_class (c : option compressor) (bs : list Z) : Z :=",
+    "  match decode_frame the_msg_codec c bs with DOk _ _ => 0 | DErr => 1 | DPanic => 2 | DFuel => 3 end.",
+]
+
+FRAME_TARGETS = ["model/FrameEq.vo", "model/Hex.vo", "model/FrameCanon.vo", "model/FrameValid.vo", "model/MsgValid.vo", "model/Mutators.vo"]
+
+LZ4_CLASS = "lz4-offset-65536"
+
+
+def hxs(h):
+    """Coq term for a byte string given in hex; long strings are split (coqc overflows on huge literals)."""
+    if len(h) <= 8000:
+        return '(hx "%s")' % h
+    parts = [h[i:i + 8000] for i in range(0, len(h), 8000)]
+    t = '(hx "%s")' % parts[-1]
+    for p in reversed(parts[:-1]):
+        t = '(app (hx "%s") %s)' % (p, t)
+    return t
+
+
+def select_records(recs, tier, limit_hex=12000):
+    """Quick tier: corpus + every 4th enumerated record + sweep + random; records with huge bodies are left to the
+    implementation-side checks (they cost seconds each inside coqc)."""
+    out, skipped = [], 0
+    k = 0
+    for r in recs:
+        if r.get("phase") == "enum":
+            k += 1
+            if tier == "quick" and k % 4 != 0:
+                continue
+        if len(r.get("bytes", "")) > limit_hex:
+            skipped += 1
+            continue
+        out.append(r)
+    return out, skipped
+
+
+def comp_term(r):
+    """The compressor oracle of a record: none, or the (raw body, compressed body) pair the real compressor produced."""
+    if r.get("compression", "none") == "none" or not (r.get("flags", 0) & 1):
+        return "None"
+    hdr = 8 if r["version"] == 2 else 9
+    return "(mkcomp %s %s)" % (hxs(r.get("raw_body", "")), hxs(r["bytes"][2 * hdr:]))
+
+
+def is_known_lz4(r):
+    return r.get("class") == LZ4_CLASS and r.get("compression") == "lz4"
+
+
+def frame_prelude(run, prop, broken):
+    fails = vlib.standard_prelude(run, "constants", "frame")
+    for k in ("forbidden", "go2coq", "harness"):
+        if k in fails:
+            broken.append("%s: %s" % (k, str(fails[k])[-500:]))
+    with vlib.Lock():
+        pr = vlib.coq_prop(prop, extra_targets=FRAME_TARGETS)
+    run.add_proof(pr)
+    if not pr["ok"]:
+        broken.append("props/%s.v or a dependency no longer checks: %s %s" % (prop, pr["failed_at"], pr["errors"]))
+    run.coverage["trusted_base"].append("coq/model/{Prim,DataType,Msg*,Frame}.v: hand-written mirror of primitive/, datatype/, message/, frame/; "
+                                        "faithful only as far as the correspondence run compared it with the compiled code")
+    return fails, pr
+
+
+def verdict(run, prop, findings, broken, how):
+    known = vlib.known_findings(prop)
+    for f in findings:
+        if f.get("model_only"):
+            continue
+        k = next((e for e in known if e.get("match") and all(f.get(a) == b for a, b in e["match"].items())), None)
+        if k:
+            run.known(k.get("what", f.get("what", "")))
+        else:
+            run.violation({"property": prop, "failing_input": f, "broken": broken, "how_to_replay": how})
+    # one KNOWN-FINDING line per known entry is enough
+    seen = set()
+    run.known_lines = [l for l in run.known_lines if not (l in seen or seen.add(l))]
+    if broken and not run.violations:
+        run.violation({"property": prop, "broken": broken, "model_mismatches": [f for f in findings if f.get("model_only")][:10],
+                       "note": "a proof obligation or the model/code correspondence no longer checks and the search found no failing input on the implementation"},
+                      no_input=True)
+
+
+def slim(r, keys=("id", "kind", "version", "flags", "compression", "phase", "variant", "class", "why", "frame", "bytes")):
+    d = {k: r.get(k) for k in keys if k in r}
+    for k in ("frame", "bytes"):
+        if isinstance(d.get(k), str) and len(d[k]) > 4000:
+            d[k] = d[k][:4000] + "...(truncated; re-run harness-frame gen with the same seed for the full record)"
+    return d
